@@ -23,7 +23,7 @@ Proof. exists 0, 0, 0. cbn. rewrite andb_false_r. reflexivity. Qed.
 Lemma loginv_step c s i : Inv c s -> LogInv c s -> enabled s i = true -> LogInv c (fst (tstep c s i)).
 Proof.
   intros I (t1 & t2 & t3 & L) E. unfold tstep, enabled in *.
-  destruct I as [I1 I2 I3 I4 I5 I6 I7 I8 I9 I10 I11 I12 I13 I14 I15 I16 I17 I18 I19 I20 I21 I22 I23 I24 I25 I26 I27 I28 I29 I30 I31].
+  destruct I as [I1 I2 I3 I4 I5 I6 I7 I8 I9 I10 I11 I12 I13 I14 I15 I16 I17 I18 I19 I20 I21 I22 I23 I24 I25 I26 I27 I28 I29 I30 I31 I32 I33 I34 I35].
   unfold N, expected in *.
   assert (CV : cv c <= 1) by (unfold cv, b2n; destruct (is_conv c); lia).
   assert (NF1 : nfire s <= 1) by (destruct (slot s); cbn [rdy] in I6; lia).
@@ -112,7 +112,7 @@ Record Final (c : cfg) (s : st) : Prop := {
 Theorem terminal_final c s : valid c = true -> reachable c s -> terminal s -> Final c s.
 Proof.
   intros V R T. destruct (terminal_done c s V R T) as (A & B & C).
-  destruct (inv_reachable c s V R) as [I1 I2 I3 I4 I5 I6 I7 I8 I9 I10 I11 I12 I13 I14 I15 I16 I17 I18 I19 I20 I21 I22 I23 I24 I25 I26 I27 I28 I29 I30 I31].
+  destruct (inv_reachable c s V R) as [I1 I2 I3 I4 I5 I6 I7 I8 I9 I10 I11 I12 I13 I14 I15 I16 I17 I18 I19 I20 I21 I22 I23 I24 I25 I26 I27 I28 I29 I30 I31 I32 I33 I34 I35].
   unfold N in *. rewrite A, B, C in *. cbn [cnt Nat.add] in *.
   assert (O : owner s = false) by (destruct (owner s); [cbn [b2n] in I1; lia|reflexivity]).
   rewrite O in *. cbn [b2n Nat.add] in *.
@@ -176,7 +176,7 @@ Proof.
   { destruct (Nat.eqb (ndeliv s) 1); [|destruct H]. destruct H as [H|[]]. discriminate. }
   destruct (atomic_cb c && Nat.eqb (nfire s) 1) eqn:Q; [|destruct H].
   assert (P : payload s = wout c s).
-  { destruct (inv_reachable c s V R) as [_ I2 I3 _ _ I6 _ _ _ _ _ _ _ _ _ _ _ _ _ _ _ _ _ _ _ _ _ _ _ _ _].
+  { destruct (inv_reachable c s V R) as [_ I2 I3 _ _ I6 _ _ _ _ _ _ _ _ _ _ _ _ _ _ _ _ _ _ _ _ _ _ _ _ _ _ _ _ _].
     apply I3. apply andb_prop in Q. destruct Q as [_ Q]. apply Nat.eqb_eq in Q. rewrite Q in I6.
     destruct (slot s); cbn [rdy] in *; try lia. destruct (owner s); [cbn [b2n] in I2; lia|reflexivity]. }
   unfold cb_log in H. cbn [map app] in H.
@@ -196,7 +196,7 @@ Theorem winner_facts c s : valid c = true -> reachable c s ->
   (c_k2 c <> None -> owner s = false -> (ret1 s = Some true /\ ret2 s <> Some true) \/ (ret2 s = Some true /\ ret1 s <> Some true)).
 Proof.
   intros V R.
-  destruct (inv_reachable c s V R) as [_ _ _ _ _ _ _ _ _ _ _ _ _ _ _ _ _ _ _ _ _ I22 I23 I24 I25 _ _ I28 I29 I30 I31].
+  destruct (inv_reachable c s V R) as [_ _ _ _ _ _ _ _ _ _ _ _ _ _ _ _ _ _ _ _ _ I22 I23 I24 I25 _ _ I28 I29 I30 I31 _ _ _ _].
   unfold wout, kind_of. split; [|split; [|split; [|split]]].
   - intros A B. apply I24 in A. apply I25 in B. congruence.
   - intros A. apply I24 in A. rewrite A. reflexivity.
@@ -217,7 +217,7 @@ Theorem released_once c s : valid c = true -> reachable c s ->
   (frees s >= 1 -> atomic_cb c = true -> exists pre t, log s = pre ++ cb_log c (payload s) t) /\
   (terminal s -> frees s = allocs s).
 Proof.
-  intros V R. destruct (inv_reachable c s V R) as [_ _ _ I4 _ I6 _ _ I9 I10 _ _ _ _ _ _ _ _ _ _ _ _ _ _ _ _ _ _ _ _ _].
+  intros V R. destruct (inv_reachable c s V R) as [_ _ _ I4 _ I6 _ _ I9 I10 _ _ _ _ _ _ _ _ _ _ _ _ _ _ _ _ _ _ _ _ _ _ _ _ _].
   assert (NF : nfire s <= 1) by (destruct (slot s); cbn [rdy] in I6; lia).
   repeat split.
   - rewrite I9. destruct (nfire s) as [|[|n]]; lia.
@@ -251,7 +251,7 @@ Theorem conv_safe c s : valid c = true -> reachable c s ->
   nores s <= 1 /\ nconv s <= b2n (isv (payload s)) /\ ndeliv s <= nores s /\
   (oslot s = SReady -> opayload s = conv_result c (payload s)).
 Proof.
-  intros V R. destruct (inv_reachable c s V R) as [_ _ _ _ _ I6 _ _ _ _ I11 _ _ I14 _ _ I17 I18 I19 _ _ _ _ _ _ _ _ _ _ _ _].
+  intros V R. destruct (inv_reachable c s V R) as [_ _ _ _ _ I6 _ _ _ _ I11 _ _ I14 _ _ I17 I18 I19 _ _ _ _ _ _ _ _ _ _ _ _ _ _ _ _].
   assert (NF : nfire s <= 1) by (destruct (slot s); cbn [rdy] in I6; lia).
   assert (CV : cv c * nfire s <= 1).
   { unfold cv, b2n. destruct (is_conv c); lia. }
@@ -307,7 +307,7 @@ Definition weight (s : st) : nat := wl (th0 s) + wl (th1 s) + wl (th2 s).
 Lemma weight_step c s i : Inv c s -> enabled s i = true -> weight (fst (tstep c s i)) < weight s.
 Proof.
   intros I E. unfold tstep, enabled, weight in *.
-  destruct I as [I1 I2 I3 I4 I5 I6 I7 I8 I9 I10 I11 I12 I13 I14 I15 I16 I17 I18 I19 I20 I21 I22 I23 I24 I25 I26 I27 I28 I29 I30 I31].
+  destruct I as [I1 I2 I3 I4 I5 I6 I7 I8 I9 I10 I11 I12 I13 I14 I15 I16 I17 I18 I19 I20 I21 I22 I23 I24 I25 I26 I27 I28 I29 I30 I31 I32 I33 I34 I35].
   unfold N in *.
   assert (CV : cv c <= 1) by (unfold cv, b2n; destruct (is_conv c); lia).
   assert (NF1 : nfire s <= 1) by (destruct (slot s); cbn [rdy] in I6; lia).
